@@ -1,10 +1,10 @@
-\* 3 transactions, Max 2, GC passes, clock: all interleavings
+\* 3 transactions, Max 2, one GC pass (nothing expires yet): all interleavings of requests and releases
 CONSTANTS
   Txn = {t1, t2, t3}
   Max = 2
   Expiry = 2
   GcPeriod = 2
-  MaxNow = 4
+  MaxNow = 2
   Variant = "none"
 SPECIFICATION ISpec
 INVARIANTS BoundedI NoLeakI QuiescentI ExpiryI RegCleanI
